@@ -10,6 +10,8 @@ From V Require Import Lib.Enc Model.Heap Proofs.HeapSift Proofs.HeapTop Run.C04.
 From V Require Import Lib.GoSem Proofs.GoSemFacts Gen.HeapCode Run.C04Code.
 Import ListNotations.
 Local Open Scope Z_scope.
+(* lia also reasons about Go's truncated division (Z.quot: the parent index (j - 1) / 2) *)
+Ltac Zify.zify_post_hook ::= Z.to_euclidean_division_equations.
 
 (* ---- the explicit, total conversion between the model's results and the results of generated code *)
 Definition cv {X Y : Type} (f : X -> Y) (r : Heap.res X) : M Y :=
@@ -206,17 +208,20 @@ Proof.
   cbv beta iota zeta delta [down_after]. steps; done.
 Qed.
 
-(* up's loop is the model's gup_go *)
-Lemma up_while_go : forall fuel s j,
+(* up's loop is the model's gup_go.  Premise 0 <= j: every caller passes an index (Push: len - 1 of a non-empty slice; fix:
+   an index its callers have checked), and two independent behaviour-preserving refactorings (harmless/C04-h2, C04-h3) write
+   the loop as `for j > 0 {...}` instead of `if i == j { break }`, which is the same function exactly on 0 <= j (for
+   j <= -2 the present code panics on s[j]).  TRANSLATOR.md, Limits: "restate the theorem with the range premise". *)
+Lemma up_while_go : forall fuel s j, 0 <= j ->
   bind (up_while fuel (s, j)) up_after = cv id (gup_go (list Z) lessM swapM fuel s j).
 Proof.
-  induction fuel as [|f IH]; intros s j; [reflexivity|].
+  induction fuel as [|f IH]; intros s j Hj; [reflexivity|].
   rewrite (while_unfold up_while _ _ _ (fun _ _ => eq_refl)). cbn [gup_go]. unfold lessL. autounfold with go2v.
-  steps; try apply IH; done.
+  steps; try (apply IH; lia); done.
 Qed.
 
-Theorem code_up : forall fuel s j, g_up fuel s cmp g_swap j = cv id (gup_go (list Z) lessM swapM fuel s j).
-Proof. intros. exact (up_while_go fuel s j). Qed.
+Theorem code_up : forall fuel s j, 0 <= j -> g_up fuel s cmp g_swap j = cv id (gup_go (list Z) lessM swapM fuel s j).
+Proof. intros. apply up_while_go. assumption. Qed.
 End Loops.
 
 Lemma Zlen_app1 (l : list Z) x : Zlen (l ++ [x]) = Zlen l + 1.
@@ -280,7 +285,7 @@ Ltac calls ::=
   match goal with
   | |- context [g_swap ?s ?i ?j] => rewrite (code_swap s i j)
   | |- context [g_down ?f ?s ?c g_swap ?i ?n] => rewrite (code_down c f s i n)
-  | |- context [g_up ?f ?s ?c g_swap ?j] => rewrite (code_up c f s j)
+  | |- context [g_up ?f ?s ?c g_swap ?j] => rewrite (code_up c f s j) by (rewrite ?Zlen_app1; zb; zlen_facts; lia)
   end.
 Ltac results ::=
   first [ same_args
@@ -302,7 +307,7 @@ Variable cmp : Z -> Z -> bool.
 Local Notation lessM := (lessL Z cmp).
 Local Notation swapM := (swapL Z).
 
-Theorem code_fix : forall fuel s i n,
+Theorem code_fix : forall fuel s i n, 0 <= i ->       (* fix calls up(s, ..., i): see code_up *)
   g_fix fuel s cmp g_swap i n = cv id (gfix (list Z) lessM swapM fuel s i n).
 Proof.
   intros. unfold g_fix, gfix. autounfold with go2v. steps; done.
@@ -419,8 +424,8 @@ Ltac calls ::=
   match goal with
   | |- context [g_swap ?s ?i ?j] => rewrite (code_swap s i j)
   | |- context [g_down ?f ?s ?c g_swap ?i ?n] => rewrite (code_down c f s i n)
-  | |- context [g_up ?f ?s ?c g_swap ?j] => rewrite (code_up c f s j)
-  | |- context [g_fix ?f ?s ?c g_swap ?i ?n] => rewrite (code_fix c f s i n)
+  | |- context [g_up ?f ?s ?c g_swap ?j] => rewrite (code_up c f s j) by (rewrite ?Zlen_app1; zb; zlen_facts; lia)
+  | |- context [g_fix ?f ?s ?c g_swap ?i ?n] => rewrite (code_fix c f s i n) by (zb; zlen_facts; lia)
   | |- context [swapL Z ?s ?i ?j] => rewrite (swapL_eq s i j)
   end.
 Ltac done2 :=
@@ -484,13 +489,13 @@ Qed.
 Theorem code_up_model : forall fuel s j, (j < length s)%nat -> (fuelL Z s <= fuel)%nat ->
   g_up fuel s cmp g_swap (Z.of_nat j) = cv id (upL Z cmp s (Z.of_nat j)).
 Proof.
-  intros fuel s j Hj Hf. rewrite code_up. destruct (upL_total s j Hj) as [r E]. rewrite E.
+  intros fuel s j Hj Hf. rewrite code_up by lia. destruct (upL_total s j Hj) as [r E]. rewrite E.
   rewrite (gup_go_mono _ _ _ _ _ _ _ _ Hf E). reflexivity.
 Qed.
 Theorem code_fix_model : forall fuel s i n, (n <= length s)%nat -> (i < n)%nat -> (fuelL Z s <= fuel)%nat ->
   g_fix fuel s cmp g_swap (Z.of_nat i) (Z.of_nat n) = cv id (fixL Z cmp s (Z.of_nat i) (Z.of_nat n)).
 Proof.
-  intros fuel s i n Hn Hi Hf. rewrite code_fix. destruct (fixL_total s i n Hn Hi) as [r E]. rewrite E.
+  intros fuel s i n Hn Hi Hf. rewrite code_fix by lia. destruct (fixL_total s i n Hn Hi) as [r E]. rewrite E.
   rewrite (gfix_mono _ _ _ _ _ _ _ _ _ Hf E). reflexivity.
 Qed.
 Theorem code_build_model : forall fuel s, (fuelL Z s <= fuel)%nat -> g_build fuel s cmp g_swap = cv id (buildL Z cmp s).
